@@ -36,7 +36,11 @@ LATE_TOK = ["`a\\|b`", "[l\\|m](u\\|v)", "<a href=\"x\\|y\">", "{% t a...b %}", 
             "![i][r]", "![r]", "[r][]", "[r]",
             "http://u.v/\u4e2d\u6587abc/x", "www.u.v/a\u4e2d", "<http://u.v/\u4e2d\u6587abc>", "`\u4e2d\u6587abc`", "[l](u/\u4e2d\u6587abc)",
             # appended later: a backslash directly in front of a pipe (in a table cell the source `\\|` is a backslash and a pipe)
-            "`a\\\\|b`", "[l](u\\\\|v)", "`a\\\\`"]
+            "`a\\\\|b`", "[l](u\\\\|v)", "`a\\\\`",
+            # appended later: titles that begin or end with a quote character of their own, a backslash in a title
+            "[l](u '\"a\" b')", "[l](u 'say \"hi\"')", "![i](u (a \"b\"))", "[l](u \"a\\\\ b\")",
+            # appended later: a "<" that starts what looks like a tag but is prose, in front of a code span
+            "a <b and `p - q > r - s`", "x <y `c - d`"]
 ALPH = SPANS_TOK + Q_TOK + LATE_TOK
 REPS = [ALPH.index(t) for t in ("aa", "`c d`", '[l](u "t")', "<http://u.v/it's>", "{% t a=\"x y\" b='z' %}", '"q', 'q"', "...", "it's")]
 
